@@ -65,6 +65,7 @@ class OpaqueFloat:
 # --------------------------------------------------------------------------------------
 class SymFInt(SymFloat):
     __slots__ = ("i",)
+    __hash__ = SymFloat.__hash__
 
     def __init__(self, i):
         self.i = i      # SymInt or int
@@ -191,8 +192,13 @@ def rval(x):
     raise TypeError(x)
 
 
+_UF_MUL = z3.Function("real_mul", z3.RealSort(), z3.RealSort(), z3.RealSort())
+_UF_DIV = z3.Function("real_div", z3.RealSort(), z3.RealSort(), z3.RealSort())
+
+
 class SymReal(SymFloat):
     __slots__ = ("e",)
+    __hash__ = SymFloat.__hash__
 
     def __init__(self, e):
         self.e = e
@@ -250,6 +256,10 @@ class SymReal(SymFloat):
         e = self._e(o)
         if e is None:
             return NotImplemented
+        if getattr(core._CTX, "real_mul_uf", False) and not isinstance(o, (int, float, Fraction)):
+            # keep the theory linear: symbolic x symbolic products are an uninterpreted (commutative) function
+            a, b = (self.e, e) if self.e.get_id() <= e.get_id() else (e, self.e)
+            return SymReal(_UF_MUL(a, b))
         return SymReal(self.e * e)
 
     __rmul__ = __mul__
@@ -264,6 +274,8 @@ class SymReal(SymFloat):
             return NotImplemented
         if bool(mkbool(e == 0)):
             raise ZeroDivisionError("float division by zero")
+        if getattr(core._CTX, "real_mul_uf", False):
+            return SymReal(_UF_DIV(self.e, e))
         return SymReal(self.e / e)
 
     def __rtruediv__(self, o):
@@ -272,6 +284,8 @@ class SymReal(SymFloat):
             return NotImplemented
         if bool(mkbool(self.e == 0)):
             raise ZeroDivisionError("float division by zero")
+        if getattr(core._CTX, "real_mul_uf", False):
+            return SymReal(_UF_DIV(e, self.e))
         return SymReal(e / self.e)
 
     def __neg__(self):
@@ -330,6 +344,7 @@ def real_input(c, name, lo=None, hi=None):
 # --------------------------------------------------------------------------------------
 class SymFP(SymFloat):
     __slots__ = ("e",)
+    __hash__ = SymFloat.__hash__
 
     def __init__(self, e):
         self.e = e
